@@ -333,6 +333,25 @@ fn run(ctx: &Ctx) {
         },
         check,
     );
+    // offset and length sweep (see gen.rs): sampled inputs x piece sizes 7 / 16 / 33 x every refill
+    let (pmax, qmax) = (130u64, 70u64);
+    let total = gen::sweep_count(pmax, qmax, 1);
+    let nsweep = ctx.tier.pick(3000u64, 40_000);
+    ctx.run_groups(
+        "offset-and-length-sweep-x-every-refill",
+        nsweep,
+        false,
+        |i| {
+            let mut r = SplitMix64::derive(seed, "c18-sweep", i);
+            let input = gen::sweep_nth(r.below(total), pmax, qmax, 1);
+            let cuts = crate::props::c02::normalise_cuts(&input, &crate::sources::cuts_fixed([7usize, 16, 33][(i % 3) as usize], input.len()));
+            let cfg = r.next() as u8 & 127;
+            let asynch = r.chance(1, 2);
+            let pend = if asynch { vec![1, 0] } else { vec![] };
+            group(&input, cfg, cuts, asynch, pend, &mut r, 2)
+        },
+        check,
+    );
 }
 
 fn replay(_stage: &str, case: &Value) -> Result<Verdict, String> {
